@@ -34,6 +34,8 @@ def frame(kind, i, op_id):
         return json.dumps({"type": "complete", "id": op_id})
     if kind == "error":
         return json.dumps({"type": "error", "id": op_id, "payload": [{"message": "boom", "path": ["counter"]}, {"message": "second"}]})
+    if kind == "error_nopayload":
+        return json.dumps({"type": "error", "id": op_id} if i % 2 else {"type": "error", "id": op_id, "payload": {}})
     if kind == "nonjson":
         return "this is {not json"
     if kind == "unknown":
@@ -203,7 +205,8 @@ async def run_case(pkg, basemod, case, client_kw, tracer):
         result = exc_kind(ex)
         if result == "multi_error":
             errs = getattr(ex, "errors", [])
-            if [e.message for e in errs] != ["boom", "second"]:
+            last_kind = [e["kind"] for e in log if e.get("e") == "recv"][-1:]
+            if [e.message for e in errs] != (["boom", "second"] if last_kind != ["error_nopayload"] else []):
                 result = "multi_error:bad_content"
         if result.startswith("other:"):
             log.append({"e": "exc", "repr": repr(ex)[:200]})
